@@ -25,3 +25,44 @@ MUTANTS = [
          old="entry_starts = new_lines[new_entries]+1\n        cut_chunk = chunk[:entry_starts[-1]]\n        return cls(cut_chunk,\n                   new_lines[:new_entries[-1]],\n                   new_entries[:-1])",
          new="entry_starts = new_lines[new_entries]+1\n        last = -2 if len(new_entries) > 2 else -1\n        cut_chunk = chunk[:entry_starts[last]]\n        return cls(cut_chunk,\n                   new_lines[:new_entries[last]],\n                   new_entries[:last])"),
 ]
+
+SO = "bionumpy/io/strops.py"
+VB = "bionumpy/io/vcf_buffers.py"
+NTB = "bionumpy/io/named_text_buffer.py"
+SAM = "bionumpy/io/buffers/sam.py"
+FQ = "bionumpy/io/fastq_buffer.py"
+
+MUTANTS += [
+    # ---- C02 ----------------------------------------------------------------------------
+    dict(prop="C02", name="digit-array-view-starts-off", file=FB,
+         old="    view_starts = (ends - max_chars)\n", new="    view_starts = (ends - max_chars) + (max_chars > 9)\n"),
+    dict(prop="C02", name="vcf-pos-not-shifted", file=VB,
+         old="        if field_nr == 1:\n            val -= 1\n", new="        if field_nr == 1 and len(val) > 3:\n            val -= 1\n"),
+    dict(prop="C02", name="crlf-adjust-first-row-only", file=DLB,
+         old="            ends[:, -1] -= data[ends[:, -1] - 1] == '\\r'", new="            ends[:1, -1] -= data[ends[:1, -1] - 1] == '\\r'"),
+    dict(prop="C02", name="sam-extra-field-start", file=SAM,
+         old="        starts = self._field_starts[:, -1]+self._field_lens[:, -1]+1\n        line_ends",
+         new="        starts = self._field_starts[:, -1]+self._field_lens[:, -1]+2\n        line_ends"),
+    dict(prop="C02", name="quality-offset-32", file="bionumpy/encodings/__init__.py",
+         old='QualityEncoding = DigitEncodingFactory("!")', new='QualityEncoding = DigitEncodingFactory(" ")'),
+    dict(prop="C02", name="info-value-start", file=NTB,
+         old="field_starts = self._field_starts.ravel()[mask] + len(name) + 1\n        lens = self._field_lens.ravel()[mask]-len(name)-1",
+         new="field_starts = self._field_starts.ravel()[mask] + len(name) + 1\n        lens = self._field_lens.ravel()[mask]-len(name)-1-(self._field_lens.ravel()[mask] > 12)"),
+    dict(prop="C02", name="info-absent-takes-previous-row", file=NTB,
+         old="        all_lens[present_mask] = lens\n", new="        all_lens[present_mask] = lens\n        all_lens = np.maximum.accumulate(all_lens) if n_entries > 6 else all_lens\n"),
+    dict(prop="C02", name="trailing-comma-lists", file=DLB,
+         old="                row_lengths = RaggedArray(mask, (text == sep).sum(axis=-1)).sum(axis=-1)\n",
+         new="                row_lengths = (text == sep).sum(axis=-1)\n"),
+    dict(prop="C02", name="phased-genotype-swapped", file="bionumpy/encodings/vcf_encoding.py",
+         old='encoded = (data[:, 0] == "1") * 2 + (data[:, 2] == "1")', new='encoded = (data[:, 0] == "1") + (data[:, 2] == "1") * 2'),
+    dict(prop="C02", name="wrapped-fasta-last-line", file=MLB,
+         old="        seq_lens = sequence_lines._shape.ends[line_offsets[1:]-1]-sequence_lines._shape.starts[line_offsets[:-1]]\n        sequences = RaggedArray(sequence_lines.ravel(), seq_lens)\n        return SequenceEntry(headers, sequences)",
+         new="        seq_lens = sequence_lines._shape.ends[line_offsets[1:]-1]-sequence_lines._shape.starts[line_offsets[:-1]]\n        sequences = RaggedArray(sequence_lines.ravel(), seq_lens)\n        if len(data) > 12:\n            headers = data[new_entries, 1:-1]\n        return SequenceEntry(headers, sequences)"),
+    dict(prop="C02", name="float-negative-exponent", file=SO,
+         old="    return decimal_numbers*10.**powers", new="    return decimal_numbers*10.**np.abs(powers)"),
+    dict(prop="C02", name="str-to-int-plus-sign", file=SO,
+         old='    number_text[is_positive, 0] = "0"\n    number_text = as_encoded_array(number_text, DigitEncoding)',
+         new='    number_text[is_positive, 0] = "1"\n    number_text = as_encoded_array(number_text, DigitEncoding)'),
+    dict(prop="C02", name="comment-lines-offset", file=DLB,
+         old="        comment_mask = np.flatnonzero(comment_mask)\n", new="        comment_mask = np.flatnonzero(comment_mask)[:2]\n"),
+]
